@@ -11,6 +11,9 @@ from vf.props import _limits as L
 ID = "C08"
 LEVEL = "exploration"
 RULE = (
+    "(plus a reused-scheduler scenario: a first execution fails while 1..limit-1 limited jobs are still with their "
+    "executor; a second execution on the same Scheduler object runs 2-4 limited jobs under generated schedules; "
+    "units held by the stragglers plus the new jobs never exceed the limit and limits_used ends at the stragglers' units) "
     "Hypothesis-generated programs whose task calls carry list- and dict-form `limits` over three "
     "resource names (one always configured 1-3, one sometimes, one never = default 1), with failing "
     "jobs, duplicates (CSE), catch/catch_all and jobs rejected before reaching an executor (unknown "
